@@ -1009,16 +1009,13 @@ def _g_pad(g, ins):
     (a,) = ins
     need(a.ndim >= 1 and a.np.size > 0)
     mode = g.rng.choice(["constant", "edge", "reflect", "symmetric", "wrap", "constant"])
+    hi = 9 if g.rng.random() < 0.25 else 3  # pads wider than the axis: NumPy repeats the image
     if g.rng.random() < 0.5:
-        width = g.rng.randint(0, 3)
+        width = g.rng.randint(0, hi)
         wmax = width
     else:
-        width = [[g.rng.randint(0, 2), g.rng.randint(0, 3)] for _ in range(a.ndim)]
+        width = [[g.rng.randint(0, 2), g.rng.randint(0, hi)] for _ in range(a.ndim)]
         wmax = max(max(w) for w in width)
-    if mode in ("reflect",):
-        need(all(s > wmax for s in a.shape))
-    if mode in ("symmetric", "wrap"):
-        need(all(s >= wmax for s in a.shape))
     need(math.prod(s + 2 * wmax for s in a.shape) <= g.max_size)
     p = {"mode": mode, "width": width}
     if mode == "constant" and g.rng.random() < 0.5:
